@@ -243,8 +243,12 @@ def gen_world(rs: int, P: dict) -> dict:
     }
     if P["net"] == "stochastic":
         net["early_departure"] = r.random() < P["stoch_early"]
-    if sub(rs, "call_form").random() < 0.3:
+    rcf = sub(rs, "call_form")
+    if rcf.random() < 0.3:
         net["positional"] = True      # constructor arguments passed by position, in the released order
+        for st_ in stations:
+            if st_["evse"]["type"] in ("EVSE", "Deadband") and rcf.random() < 0.7:
+                st_["evse"]["pos"] = True
 
     # simulation parameters
     rsim = sub(rs, "sim")
